@@ -265,6 +265,7 @@ def trie_rules(rep, fb, r5, r6):
 def run(rep, tier):
     rep.rule('R12.1', 'one matcher: the interpreter, the validator and the debugger decide descriptor matches by calling uscxml::nameMatch; no second matcher is defined in src/')
     rep.rule('R12.2', 'scanner loops (tokenize, spaceNormalize, nameMatch and the copies shipped for generated C) take every non-empty token: guard normal form start < i, and a skip/start/last-token combination from the confirmed-correct table')
+    rep.rule('R12.7', 'closed set of reasons to accept: every `return true` of the matcher (and of its shipped copy) is reached only with the descriptor empty after stripping (wildcard), with descriptor and name equal, or with the descriptor a prefix of the name AND the name having "." exactly at position descriptor.size()')
     rep.rule('R12.3', 'copy agreement: StateMachine::nameMatch (test-gen-c.cpp scaffolding) has the same decision features as uscxml::nameMatch')
     rep.rule('R12.6', 'static resolution finds every event name below a prefix: Trie::getChildsWithWords adds the node\'s own word and descends into EVERY child, whether or not that child is itself a word (a.b and a.b.c are both names)')
     rep.rule('R12.5', 'static resolution registers every event name: Trie::addWord marks the final node as a word under no other condition than that it is not one yet')
@@ -378,6 +379,57 @@ def run(rep, tier):
             # a refactoring of one copy: what decides a match (guards, skip form, suffix stripping, length guard, prefix and dot test, step order) agrees
             rep.ok('R12.3', 'nameMatch copies', 'bodies differ structurally but every decision feature agrees: %s' % sorted(va))
             rep.note('R12.3: %s and %s are no longer structurally identical; compared on decision features only' % (a.where(), b.where()))
+
+    # ---- R12.7 closed set of reasons to accept
+    from .C08 import edge_dominates
+
+    def classify(c):
+        c = strip(c)
+        calls = [x for x in sub(c) if x.get('callee')]
+        names = [x['callee']['q'].split('::')[-1] for x in calls]
+        lits = [x.get('str') for x in sub(c) if x['k'] == 'StringLiteral'] + [chr(x['int']) for x in sub(c) if x['k'] == 'CharacterLiteral' and isinstance(x.get('int'), int)]
+        if c['k'] == 'BinaryOperator' and c.get('op') == '==':
+            l, r = strip(c['c'][0]), strip(c['c'][1])
+            lq = (l.get('callee') or {}).get('q', '').split('::')[-1]
+            if lq in ('size', 'length') and tab.const_of(r) == 0:
+                return 'EMPTY'
+            if lq == 'find' and not lits and tab.const_of(r) == 0:
+                return 'PREFIX'
+            if lq == 'compare' and tab.const_of(r) == 0 and len(l.get('c', [])) >= 4 and tab.const_of(l['c'][1]) == 0:
+                return 'PREFIX'
+            if lq == 'find' and lits == ['.'] and (r.get('callee') or {}).get('q', '').split('::')[-1] in ('size', 'length'):
+                return 'BOUNDARY'
+            if lq in ('operator[]', 'at') and lits == ['.'] and any(x.get('callee', {}).get('q', '').split('::')[-1] in ('size', 'length') for x in sub(l)):
+                return 'BOUNDARY'
+        if 'empty' in names and c['k'] in ('CXXMemberCallExpr',):
+            return 'EMPTY'
+        if any(nm in ('iequals', 'equals') for nm in names) or (c['k'] == 'CXXOperatorCallExpr' and c.get('op') == '==' and not lits):
+            return 'EQUAL'
+        if any(nm in ('starts_with', 'istarts_with') for nm in names):
+            return 'PREFIX'
+        return None
+    n_acc = 0
+    for fn_ in (a, b):
+        g_ = cfgm.CFG(fn_)
+        for n in fn_.walk():
+            if n['k'] != 'ReturnStmt' or not n.get('c') or tab.const_of(n['c'][0]) != 1 or n['id'] not in g_.pos:
+                continue
+            tb_ = g_.pos[n['id']][0]
+            kinds = set()
+            for bid, blk in g_.blocks.items():
+                c_ = blk.get('cond')
+                if c_ is None or c_ not in fn_.nodes or bid == tb_:
+                    continue
+                if edge_dominates(g_, bid, True, tb_):
+                    k_ = classify(fn_.nodes[c_])
+                    if k_:
+                        kinds.add(k_)
+            n_acc += 1
+            ok = 'EMPTY' in kinds or 'EQUAL' in kinds or {'PREFIX', 'BOUNDARY'} <= kinds
+            rep.check(ok, 'R12.7', '%s|accept#%d' % (fn_.q, sum(1 for x in fn_.walk() if x['k'] == 'ReturnStmt' and x['loc'][1] < n['loc'][1])), locstr(n),
+                      'a descriptor is accepted here under %s%s' % (sorted(kinds) or 'no recognised reason', '' if ok else
+                      ': the only reasons to accept are the wildcard (descriptor empty after stripping), equality with the whole name, or a prefix of the name that ends exactly where the name has a "." (boundary test at position descriptor.size())'))
+    rep.minimum('R12.7', n_acc, 6, 'accepting returns in the two matcher copies')
 
     # ---- R12.4
     sites = 0
